@@ -240,6 +240,13 @@ OPS = {
     'ser_crtf_each': lambda c: [_try(lambda r=r: _ser(r, 'crtf')) for r in _sky(c)[:10] + _sky(c)[11:]],
     'ser_crtf_each_pix': lambda c: [_try(lambda r=r: _ser(r, 'crtf', coordsys='image')) for r in _pix(c)],
     'ser_crtf_list_sky': lambda c: _try(lambda: _ser(c.list_crtf, 'crtf', coordsys='galactic', fmt='.4f', radunit='arcsec')),
+    # the same serialiser with other option values (state keyed on only some of the options would show here)
+    'ser_crtf_arcsec': lambda c: _try(lambda: _ser(c.list_crtf, 'crtf', radunit='arcsec')),
+    'ser_crtf_arcmin_gal': lambda c: _try(lambda: _ser(c.list_crtf, 'crtf', coordsys='galactic', radunit='arcmin')),
+    'ser_crtf_fmt3_deg': lambda c: _try(lambda: _ser(c.list_crtf, 'crtf', fmt='.3f')),
+    'ser_crtf_fmt3_rad_icrs': lambda c: _try(lambda: _ser(c.list_crtf, 'crtf', fmt='.3f', radunit='rad', coordsys='icrs')),
+    'ser_ds9_prec3': lambda c: _try(lambda: _ser(c.list_pix, 'ds9', precision=3)),
+    'ser_ds9_prec11_sky': lambda c: _try(lambda: _ser(c.list_sky, 'ds9', precision=11)),
     'ser_fits_each': lambda c: [_try(lambda r=r: _ser(r, 'fits')) for r in _pix(c)],
     'ser_fits_list_pix': lambda c: _try(lambda: _ser(c.list_pix, 'fits')),
     'ser_fits_list_mixed': lambda c: _try(lambda: _ser(c.list_mixed, 'fits')),
@@ -327,18 +334,23 @@ def run_history(hist, stepwise=False):
 _BASE = {}
 
 
-def base_results():
-    """Result of every operation from the initial state (each on a fresh pool)."""
-    if not _BASE:
-        for op in OP_NAMES:
-            r, ch, _ = run_history([op])
-            _BASE[op] = r[0]
+def base_results(ops=None):
+    """Result of every operation *run first in a fresh interpreter* (PYTHONHASHSEED=0) on a fresh pool: the
+    reference every in-process history is compared with.  (Computing the reference in the exploring process
+    itself would let earlier reference computations pollute later ones.)"""
+    need = [o for o in (ops or OP_NAMES) if o not in _BASE]
+    if need:
+        from concurrent.futures import ThreadPoolExecutor
+        with ThreadPoolExecutor(max_workers=min(16, len(need))) as ex:
+            outs = list(ex.map(lambda o: run_fresh([o], 0), need))
+        for o, out in zip(need, outs):
+            _BASE[o] = out[o][0]
     return _BASE
 
 
 def check_history(res, hist):
     case = {'op': 'history', 'hist': list(hist)}
-    base = base_results()
+    base = base_results(list(hist))
     results, changed, _ = run_history(hist)
     res.evaluations += 1
     res.transitions += len(hist)
@@ -377,7 +389,7 @@ def run_fresh(ops, seed):
 
 
 def check_fresh(res, ops, seed):
-    base = base_results()
+    base = base_results(list(ops))
     out = run_fresh(ops, seed)
     for op in ops:
         res.evaluations += 1
@@ -396,6 +408,7 @@ def check_fresh(res, ops, seed):
 
 # ------------------------------------------------------------------ driver --
 def shards(tier, seed):
+    base_results()          # computed once in the parent (fresh interpreters), inherited by the forked workers
     out = [{'kind': 'closure'}]
     n = len(OP_NAMES)
     for i in range(n):
@@ -428,6 +441,10 @@ def run_shard(shard, tier, seed):
             if changed[0][1]:
                 res.violation(ID, 'input_mutated', {'op': 'history', 'hist': [op]},
                               f'operation {op!r} changed its inputs / module state: {changed[0][1][:8]}', [], changed[0][1][:12])
+            if results[0] != base_results([op])[op]:
+                res.violation(ID, 'result_depends_on_history', {'op': 'history', 'hist': [op]},
+                              f'operation {op!r} in the exploring process differs from the same operation run first in a fresh interpreter',
+                              base_results([op])[op], results[0])
             # I3: the same operation twice
             r2, ch2, _ = run_history([op, op])
             res.transitions += 2
